@@ -278,7 +278,7 @@ class Check:
         if os.path.isdir(d):
             for f in sorted(os.listdir(d)):
                 if f.endswith('.json'):
-                    out.append(json.load(open(os.path.join(d, f)))['case'])
+                    out.append(unjson(json.load(open(os.path.join(d, f)))['case']))
         return out
 
     def cases(self):
